@@ -3,7 +3,8 @@
      txnkv/transaction/txn.go                 (InitPipelinedMemDB: the flush callback — closed check, range bounds)
      txnkv/transaction/pipelined_flush.go     (resolveFlushedLocks: range handed to the range task)
      txnkv/rangetask/range_task.go            (RunOnRange partition loop) + buildPipelinedResolveHandler loop
-   as the code is at /repo HEAD (resolve range end = kv.NextKey(largest flushed key); Cleanup drops batchGetCache).
+   as the code is at /repo HEAD (resolve range end = kv.NextKey(largest flushed key) [a4a602e]; Cleanup drops batchGetCache
+   [254a717]; the flush callback latches its first failure unconditionally in `flushFailed` [a2d1351] = field `closed`).
    Executable Gallina only; ghost fields (flog, segs, seg, running, maxrun) record what the flush function
    was handed and are not read by the non-ghost part. *)
 From Verif Require Import Base.Lex.
